@@ -131,7 +131,14 @@ func (in *inst) open() {
 		Manifest: mgr,
 		StoreID:  storeID,
 		PeerBuilder: func(meta manifest.RegionMeta) (*peer.Config, error) {
-			return regionh.PeerConfig(meta), nil
+			for _, pm := range meta.Peers {
+				if pm.StoreID == storeID {
+					cfg := regionh.PeerConfig(meta)
+					cfg.RaftConfig.ID = pm.PeerID
+					return cfg, nil
+				}
+			}
+			return nil, fmt.Errorf("store %d has no replica of region %d", storeID, meta.ID)
 		},
 		RegionHooks: store.RegionHooks{
 			OnRegionUpdate: func(meta manifest.RegionMeta) {
@@ -170,6 +177,17 @@ func (in *inst) startPeer(meta manifest.RegionMeta) {
 			vr.Fatalf("campaign region %d: %v", meta.ID, err)
 		}
 	}
+}
+
+// firstPeerID returns the smallest id of a peer currently hosted by the store (0 if none).
+func (in *inst) firstPeerID() uint64 {
+	var id uint64
+	for _, h := range in.st.Peers() {
+		if id == 0 || h.ID < id {
+			id = h.ID
+		}
+	}
+	return id
 }
 
 func (in *inst) closeRuntime() {
@@ -253,6 +271,26 @@ func (in *inst) Enabled() []string {
 				continue // raft mode: only well-formed proposals (a failed admin apply wedges the harness peer)
 			}
 			ops = append(ops, fmt.Sprintf("split:%d:%s", k, key))
+		}
+	}
+	if !in.p.Raft {
+		// splits whose child peer cannot be started: the child has no replica on this store
+		// (peer builder refuses it), or its peer id collides with a peer the store already hosts.
+		// A failed admin apply wedges a raft peer, so these run in direct mode only.
+		collide := in.firstPeerID() != 0
+		for k, g := range c {
+			if !g.live() {
+				continue
+			}
+			for _, key := range splitKeys {
+				if !(g.Start < key && (g.End == "" || key < g.End)) {
+					continue
+				}
+				ops = append(ops, fmt.Sprintf("splitfail:%d:%s:noreplica", k, key))
+				if collide {
+					ops = append(ops, fmt.Sprintf("splitfail:%d:%s:collide", k, key))
+				}
+			}
 		}
 	}
 	var live []int
@@ -371,6 +409,26 @@ func (in *inst) Apply(op string) (bool, error) {
 			opErr = in.st.VerifApplyAdmin(&pb.AdminCommand{Type: pb.AdminCommand_SPLIT,
 				Split: &pb.SplitCommand{ParentRegionId: g.ID, SplitKey: []byte(key), Child: cpb}})
 		}
+		mustBump = g.ID
+	case "splitfail":
+		k, err := idx(1)
+		if err != nil {
+			return false, err
+		}
+		g, key := pre[k], f[2]
+		class = fmt.Sprintf("splitfail(child=%s,end=%s)", f[3], inf(g.End))
+		in.nextID++
+		cp := &pb.RegionPeer{StoreId: storeID + 1, PeerId: regionh.PeerID(in.nextID)} // no replica here
+		if f[3] == "collide" {
+			pid := in.firstPeerID()
+			if pid == 0 {
+				return false, nil
+			}
+			cp = &pb.RegionPeer{StoreId: storeID, PeerId: pid}
+		}
+		cpb := &pb.RegionMeta{Id: in.nextID, EndKey: []byte(g.End), EpochVersion: g.Ver + 1, EpochConfVersion: g.Conf, Peers: []*pb.RegionPeer{cp}}
+		opErr = in.st.VerifApplyAdmin(&pb.AdminCommand{Type: pb.AdminCommand_SPLIT,
+			Split: &pb.SplitCommand{ParentRegionId: g.ID, SplitKey: []byte(key), Child: cpb}})
 		mustBump = g.ID
 	case "merge":
 		t, err := idx(1)
@@ -644,7 +702,7 @@ func main() {
 		Level:       "model_checking",
 		Evaluations: total.Counters["executions"],
 		Distinct:    states,
-		Rule: "DFS with canonical-state pruning over all sequences of split(region,key in a..g) / merge(target,source) for adjacent live pairs in both directions / remove / stop / state change / restart / manifest-rewrite+restart on a real Store with a real manifest, " +
+		Rule: "DFS with canonical-state pruning over all sequences of split(region,key in a..g) / failing split (child without a replica on this store, child peer id colliding with a hosted peer) / merge(target,source) for adjacent live pairs in both directions / remove / stop / state change / restart / manifest-rewrite+restart on a real Store with a real manifest, " +
 			"from every partition of the key space at cuts ⊂ {b,d,f}; a state is distinct if its sorted region table (range, epoch, state, peers; ids abstracted) differs; oracle after every transition",
 		Samples:     total.SamplesAny(),
 		States:      states,
